@@ -31,7 +31,8 @@ class C19(Prop):
               ("timerErrAlreadyActive", "TIMER_ERR_ALREADY_ACTIVE"),
               ("timerErrInvalidInterval", "TIMER_ERR_INVALID_INTERVAL"),
               ("workerStopped", "ASYNC_WORKER_STOPPED"),
-              ("workerRunning", "ASYNC_WORKER_RUNNING")]
+              ("workerRunning", "ASYNC_WORKER_RUNNING"),
+              ("workerStopping", "ASYNC_WORKER_STOPPING")]
     # the ring size is a #define private to the epoll back end: the probe includes the .c file itself
     const_headers = ["lib/async/async_runtime_epoll.c", "lib/async/async_queue.h", "lib/async/async_worker.h",
                      "lib/port/timer.h"]
@@ -64,6 +65,56 @@ class C19(Prop):
                    "(open known finding C19-heart-beat-flag-race); the full backend() loop is not run under ThreadSanitizer",
                    "eventfd counter overflow after 2^64-2 un-waited doorbell writes",
                    "several writers blocked at once on a BLOCK_WRITER queue are exercised only by the multi-thread runs"]
+
+    # ---- translator: ORDER of the state stores relative to the spawn / the user procedure -------------------
+    STATE_NAMES = {"ASYNC_WORKER_STOPPED": "workerStopped", "ASYNC_WORKER_RUNNING": "workerRunning",
+                   "ASYNC_WORKER_STOPPING": "workerStopping"}
+
+    def _function_body(self, src, name, site):
+        import re
+        from nvlib import extract as X
+        m = re.search(r"\b%s\s*\([^;{]*\)\s*\{" % re.escape(name), src)
+        if not m:
+            raise X.TieBroken(site, "function %s not found in lib/async/async_worker_pthread.c" % name)
+        i, depth = m.end(), 1
+        while i < len(src) and depth:
+            depth += {"{": 1, "}": -1}.get(src[i], 0)
+            i += 1
+        body = src[m.end():i - 1]
+        body = re.sub(r"/\*.*?\*/", " ", body, flags=re.S)
+        return re.sub(r"//[^\n]*", " ", body)
+
+    def _stores_around(self, body, call_re, site):
+        """state stores (as Gen constant names) before / after the first match of call_re, in source order"""
+        import re
+        from nvlib import extract as X
+        calls = list(re.finditer(call_re, body))
+        if len(calls) != 1:
+            raise X.TieBroken(site, "expected exactly one `%s` call, found %d" % (call_re, len(calls)))
+        before, after = [], []
+        for m in re.finditer(r"->\s*state\s*=(?!=)\s*([^;]+);", body):
+            rhs = m.group(1).strip()
+            if rhs not in self.STATE_NAMES:
+                raise X.TieBroken(site, "unrecognised value stored into ->state: `%s`" % rhs)
+            (before if m.start() < calls[0].start() else after).append(self.STATE_NAMES[rhs])
+        return before, after
+
+    def gen_extra(self, ctx, bdir):
+        src = open(os.path.join(E.REPO, "lib/async/async_worker_pthread.c")).read()
+        cb, ca = self._stores_around(self._function_body(src, "async_worker_create", "order:async_worker_create"),
+                                     r"\bpthread_create\s*\(", "order:async_worker_create")
+        wb, wa = self._stores_around(self._function_body(src, "worker_thread_proc", "order:worker_thread_proc"),
+                                     r"->\s*proc\s*\(", "order:worker_thread_proc")
+        fmt = lambda l: "[" + ", ".join(l) + "]"
+        return "\n".join([
+            "/-- C: values stored into `worker->state` in `async_worker_create` BEFORE the `pthread_create` call, in order -/",
+            "def createStoresBeforeSpawn : List Nat := " + fmt(cb),
+            "/-- C: values stored into `worker->state` in `async_worker_create` AFTER the `pthread_create` call, in order -/",
+            "def createStoresAfterSpawn : List Nat := " + fmt(ca),
+            "/-- C: values stored into `worker->state` in `worker_thread_proc` before `worker->proc(...)` is called -/",
+            "def wrapperStoresBeforeProc : List Nat := " + fmt(wb),
+            "/-- C: values stored into `worker->state` in `worker_thread_proc` after `worker->proc(...)` returned -/",
+            "def wrapperStoresAfterProc : List Nat := " + fmt(wa)])
 
     # ---- build / run -----------------------------------------------------
     def prepare(self, ctx):
@@ -147,6 +198,10 @@ class C19(Prop):
         # confirmed defect 2 (repaired): timed join before the thread stored RUNNING
         mk("join-before-running", ["wnew 1 hold", "wstate 1", "wjoin 1 50", "wrelease 1", "wstop 1", "wstep 1", "wjoin 1 50",
                                    "wstate 1", "wdestroy 1"])
+        # the creator-side window: a short-lived worker finishes inside the creator's pthread_create call
+        mk("short-lived-worker", ["wnew 1 race", "wstate 1", "wjoin 1 50", "wstate 1", "wdestroy 1"])
+        mk("short-lived-worker-stop", ["wnew 1 race", "wstop 1", "wjoin 1 0", "wjoin 1 -1", "wdestroy 1", "wnew 2 race", "wrelease 2",
+                                       "wstep 2", "wquit 2", "wjoin 2 -1", "wstate 2"])
         mk("join-zero-timeout", ["wnew 1 hold", "wjoin 1 0", "wrelease 1", "wjoin 1 0", "wstop 1", "wjoin 1 15", "wstep 1",
                                  "wjoin 1 0", "wdestroy 1"])
         mk("stop-before-start", ["wnew 2 hold", "wstop 2", "wjoin 2 20", "wrelease 2", "wstep 2", "wjoin 2 -1", "wdestroy 2"])
@@ -245,7 +300,7 @@ class C19(Prop):
             w = rng.range(1, nw)
             if w not in made:
                 made.add(w)
-                L.append("wnew %d %s" % (w, rng.choice(["hold", "hold", "run"])))
+                L.append("wnew %d %s" % (w, rng.choice(["hold", "hold", "run", "race"])))
                 if rng.chance(1, 2):
                     L.append("wjoin %d %d" % (w, rng.choice([0, 5, 10, 15, 25, 50])))
                 continue
